@@ -92,9 +92,44 @@ def sys_oracles(scn):
     return out
 
 
+def via_trace(scn, rng, mode=None):
+    """Turn a scenario into one whose pipelines reach the simulator through a trace file read by the real
+    CSVWorkloadReader / WorkloadTrace.  File order: sorted by arrival, two individually sorted traces appended, or
+    shuffled (rows out of arrival order are delivered late, never refused)."""
+    for p in scn["pipes"]:
+        for o in p["ops"]:
+            o["segs"] = o["segs"][:1]                 # the trace format has one segment per operator
+    n = len(scn["pipes"])
+    mode = mode or rng.choice(["sorted", "sorted", "appended", "appended", "shuffled"])
+    idx = sorted(range(n), key=lambda k: scn["pipes"][k]["at"])
+    if mode == "appended":
+        a = [k for k in idx if rng.random() < 0.5]
+        idx = a + [k for k in idx if k not in a]
+    elif mode == "shuffled":
+        rng.shuffle(idx)
+    scn["via_trace"] = {"mode": mode, "order": idx}
+    return scn
+
+
 def sys_execute(scn, rng):
     from .. import sysdrv
-    out, rec, stats = sysdrv.run(scn, oracles=sys_oracles(scn), keep_rounds=False)
+    factory = None
+    if scn.get("via_trace"):
+        import io
+        from ..tracecmp import scn_to_rows, rows_to_text
+        from ..common import import_repo
+        import_repo()
+        from eudoxia.workload.csv_io import CSVWorkloadReader
+        tps = scn["cfg"]["tps"]
+        n = len(scn["pipes"])
+        order = [k for k in scn["via_trace"]["order"] if k < n]
+        order += [k for k in range(n) if k not in order]          # (a minimised scenario has fewer pipelines)
+        text = rows_to_text(scn_to_rows([scn["pipes"][k] for k in order], tps))
+
+        def factory(rec):
+            rec.probe("trace_" + scn["via_trace"]["mode"])
+            return sysdrv.wrap_workload(CSVWorkloadReader(io.StringIO(text)).get_workload(tps), rec)
+    out, rec, stats = sysdrv.run(scn, oracles=sys_oracles(scn), workload_factory=factory, keep_rounds=False)
     return out
 
 
